@@ -271,9 +271,14 @@ func c16RegexFor(names []string) string {
 		if i == 0 {
 			continue
 		}
-		if n == "" {
+		switch {
+		case n == "":
 			sb.WriteString("(x?)")
-		} else {
+		case i%3 == 1:
+			sb.WriteString("(?<" + n + ">x?)") // the Perl/.NET spelling (Go >= 1.22)
+		case i%3 == 2:
+			sb.WriteString("(?:y(?P<" + n + ">x))?") // inside an optional non-capturing group
+		default:
 			sb.WriteString("(?P<" + n + ">x?)")
 		}
 	}
